@@ -214,10 +214,19 @@ def cases(draw):
         shape = {"top": draw(st.integers(0, 7)), "drop": draw(st.lists(st.integers(0, 7), min_size=1, max_size=3)),
                  "mirror": draw(st.sampled_from([False, False, True])),
                  "extra": draw(st.lists(st.integers(0, 31), max_size=2))}
+    trees = draw(st.lists(tree, min_size=1, max_size=3))
+    # in about 1 case of 4 additionally an EMPTY directory (no files -> the "[]" listing object, which lists nothing)
+    empty_at = draw(st.sampled_from([None, None, None, None, None, None, 0, 3]))
+    empty = None
+    if empty_at is not None:
+        trees.insert(min(empty_at, len(trees)), {})
+        # ... which is then (besides whatever the fills / the query draw anyway) put into A / B and queried as drawn
+        empty = {"a": draw(st.booleans()), "b": draw(st.booleans()), "q": draw(st.sampled_from([True, True, False]))}
     return {
         "half": "status",
         "shape": shape,
-        "trees": draw(st.lists(tree, min_size=1, max_size=3)),
+        "trees": trees,
+        "empty": empty,
         "loose": draw(st.lists(content, max_size=2)),
         "zeros": nz,
         "zeros_in_b": draw(st.booleans()),
@@ -287,6 +296,7 @@ def _vals(s):
 
 def run_status_case(case, ctx):  # noqa: C901, PLR0912, PLR0915
     from dvc_data.hashfile.status import compare_status, status
+    from dvc_data.hashfile.transfer import transfer
 
     viols, cl = [], []
     with ctx.tmpdir() as d:
@@ -295,11 +305,15 @@ def run_status_case(case, ctx):  # noqa: C901, PLR0912, PLR0915
         odbs = [ops.make_odb(k, r) for k, r in zip(case["kinds"], roots)]
         _populate(w, odbs[0], roots[0], case["a"], bool(case["zeros"]))
         _populate(w, odbs[1], roots[1], case["b"], bool(case["zeros"]) and case["zeros_in_b"])
+        empty = case.get("empty")
+        e_oid = next((t["oid"] for t in w.tops if t["isdir"] and not t["files"]), None)
+        if empty and e_oid:
+            for odb, flag in zip(odbs, (empty["a"], empty["b"])):
+                if flag:
+                    transfer(w.cache, odb, set(hinfos([e_oid])), shallow=True)
         shape = case.get("shape")
         if shape:
-            from dvc_data.hashfile.transfer import transfer
-
-            tops = [t for t in w.tops if t["isdir"] and not t["zeros"]]
+            tops = [t for t in w.tops if t["isdir"] and not t["zeros"] and t["files"]]  # "minus files" needs files
             t = tops[shape["top"] % len(tops)]
             for odb in odbs:
                 transfer(w.cache, odb, set(hinfos(closed_ids(t))), shallow=True)
@@ -318,6 +332,8 @@ def run_status_case(case, ctx):  # noqa: C901, PLR0912, PLR0915
         udirs = [i for i in universe if i.endswith(".dir")]
         query = sorted({universe[i % len(universe)] for i in case["query"]}
                        | {udirs[i % len(udirs)] for i in case.get("qdirs", [])})
+        if empty and e_oid and empty["q"]:
+            query = sorted(set(query) | {e_oid})
         shallow = case["shallow"]
         if shape:
             # expanded query of the directory plus ids the lacking store holds: every requested id is present
@@ -391,6 +407,10 @@ def run_status_case(case, ctx):  # noqa: C901, PLR0912, PLR0915
             cl.append("query-has-00-id")
         if any(q.endswith(".dir") for q in query):
             cl.append("query-has-dir")
+        if e_oid:
+            cl.append("world-has-empty-dir")
+            if e_oid in query:
+                cl.append("query-has-empty-dir:" + ("in-A" if e_oid in listing[0] else "not-in-A"))
         if ref.closure_problems({i: w.bytes[i] for i in listing[0]}):
             cl.append("A-not-closed")
         if case["a"]["unprotect"] and case["kinds"][0] == "local":
